@@ -17,7 +17,6 @@ NA = {
     "C16": "Fault sequences over every file operation and their effect on later calls and on reopen; the only per-function fact (errors propagate through `?`) is true by construction and decides nothing.",
     "C17": "(a) 'fails without modifying any database file' is a statement about directory contents; (b) the metadata round trip is string formatting/parsing (format!, split, HashMap<&str,&str>, parse): Verus rejects str reasoning and one format! already exceeds CBMC's budget here.",
     "C18": "Advisory flock semantics across handles and processes; a ghost 'locked' token would need DbInner::open (OpenOptions, PathBuf, 20-field struct of lock/condvar types) accepted verbatim by Verus -- it is not.",
-    "C01": "End-to-end map semantics across pipeline stages is a history/schedule property; harnesses that construct a whole column (256 value tables, std HashMaps) exceed the solver budget. Its function-level ingredients are decided under C06, C08, C09, C19.",
 }
 
 
